@@ -284,7 +284,8 @@ def code_params(rng, tier):
         ps.append((6, k))
     for k in [0] + ks:
         ps.append((7, k)); ps.append((9, k)); ps.append((10, k))
-    for b in [1, 2, 3, 4, 5, 6, 7, 8, 9, 10, 11, 16, 17, 100, 255, 256, 257, (1 << 32) + 1, (1 << 62) + 12345, 1 << 63, (1 << 63) + 1, U64]:
+    for b in [1, 2, 3, 4, 5, 6, 7, 8, 9, 10, 11, 16, 17, 100, 255, 256, 257, 65535, 65536, (1 << 20) + 7, (1 << 31) - 1, 1 << 31,
+              (1 << 32) - 1, 1 << 32, (1 << 32) + 1, (1 << 40) + 3, (1 << 62) + 12345, 1 << 63, (1 << 63) + 1, U64]:
         ps.append((8, b)); ps.append((11, b))
     return ps
 
